@@ -588,9 +588,11 @@ class InferenceManager:
                 },
             )
 
-        for index, query in enumerate(queries.conditionals.values()):
+        for index, (query_key, query) in enumerate(queries.conditionals.items()):
             query = str(query)
-            df.at[index, "index"] = results[query][0]
+            # results are keyed by query text; queries sharing a text share an entry,
+            # so the row's key is taken from the submitted query itself
+            df.at[index, "index"] = query_key
             df.at[index, "result"] = results[query][1]
             df.at[index, "preprocessing_timed_out"] = self.epistemic_state[
                 "preprocessing_timed_out"
